@@ -268,6 +268,14 @@ def r5(ctx):
                 sp.append((fb, bb, t))
         w = [bb for bb, t in b.calls("turmoil::rt::with")]
         ok = len(fc) == 1 and len(sp) == 1 and len(w) == 1
+        # the factory is host code: its synchronous prefix must run inside the host's runtime like the future it returns (outside, tokio's
+        # Instant::now() is the wall clock) - the call sits in the closure handed to rt::with, not in the function itself
+        inside = ok and all(fb.id != b.id and any(fb.id in closure_args(b, t) or fb.id.startswith(cid) for bb, t in b.calls("turmoil::rt::with") for cid in closure_args(b, t)) for fb, bb in fc)
+        if ok and not inside:
+            ctx.inst(R, f"{fid}:factory-inside-runtime", False, b.span, f"`{fid}` calls the software factory outside the closure it hands to rt::with: the synchronous part of the "
+                     "factory runs on the bare thread, where tokio::time::Instant::now() is the machine's wall clock - a start time taken there differs in every execution")
+        elif ok:
+            ctx.ok(R, f"{fid}:factory-inside-runtime", b.span, "the factory runs inside the host's runtime")
         if fid.endswith("bounce") and ok:
             # the `with` call must be on every path where kind is Host (bounce panics otherwise)
             st = [bb for bb, t in b.calls(re.compile(r"^std::option::Option::(replace|insert)$")) if "field:turmoil::rt::Rt::handle" in Slicer(ctx.w).atoms(b, t["args"][0])]
@@ -276,7 +284,7 @@ def r5(ctx):
             ok = bool(st) and all(b.dominated_by_block(x, w[0]) for x in st)
         ctx.inst(R, f"{fid}:starts-once", ok, b.span, "software factory called once, spawned once, handle stored" if ok else
                  f"`{fid}`: the software factory is not called exactly once and spawned exactly once per call ({len(fc)} factory call(s), {len(sp)} spawn(s))")
-    ctx.floor(R, 2)
+    ctx.floor(R, 4)
 
 
 def r6(ctx):
@@ -395,6 +403,10 @@ def r9(ctx):
 
 
 def run(ctx):
+    from . import C09
+    C09.r12(ctx)  # a socket dropped by the crash leaves its groups without taking the other members with it
+    from . import C05
+    C05.r11(ctx, R="C04-R10")   # the old incarnation's destructors run inside the *old* runtime: nothing they spawn survives into the next one
     r9(ctx)
     if ctx.config in ("all", "fs", "fs_iou"):
         from . import C07
